@@ -83,6 +83,7 @@ fn mk_host(idx: usize, pad: &[u8]) -> Vec<u8> {
 
 impl World {
     pub fn new(case: &Case) -> World {
+        register_verbatim(case);
         let clock = if case.keepalive.iter().any(|k| *k) { Some(sim_runtime().enter()) } else { None };
         let log = Log::default();
         // everything the scripts of this case can put into messages
@@ -101,7 +102,7 @@ impl World {
         for b in case.bridges.iter() {
             total += b.read.iter().map(|x| if let LR::Chunk(n) = x { *n as usize } else { 0 }).sum::<usize>();
         }
-        total += case.dgrams.iter().map(|d| d.data_len as usize + d.host_len as usize).sum::<usize>();
+        total += case.dgrams.iter().map(|d| d.data_len as usize + dg_host_len(d.host_len as usize)).sum::<usize>();
         let link = SharedLink::new([case.cap[0].map(|c| c.max(1) as usize), case.cap[1].map(|c| c.max(1) as usize)]);
         link.0.lock().unwrap().max_message = crate::engine::MAX_SIM_MESSAGE + total;
         for sd in 0..2 {
@@ -343,8 +344,7 @@ impl World {
                 for _ in 0..b.delay {
                     yield_once().await;
                 }
-                let mut host = format!("b{idx}.").into_bytes();
-                host.extend_from_slice(&b.host);
+                let host = bind_host(idx, &b.host);
                 let btype = if b.dgram { BindType::Datagram } else { BindType::Stream };
                 let r = match cancel {
                     None => m.request_bind(&host, b.port, btype).await,
